@@ -1,0 +1,89 @@
+//go:build verif
+
+// Package verifhook holds the hooks used by the external runtime verification harness.
+// With the verif build tag the hooks call the handler installed by the harness.
+package verifhook
+
+import (
+	"slices"
+	"strconv"
+	"sync"
+	"sync/atomic"
+
+	"github.com/B1NARY-GR0UP/originium/types"
+)
+
+const Enabled = true
+
+// Handler is installed by the harness, nil members are skipped.
+type Handler struct {
+	// FS is called immediately before a mutating file system operation
+	// (create, write, sync, rename, remove), FSDone immediately after it succeeded.
+	// path of a rename is "old\x00new".
+	FS     func(op, path string)
+	FSDone func(op, path string)
+	// Point is called between two critical sections, the handler may yield or sleep.
+	Point func(name string)
+	// Event reports that something happened, it must not block.
+	Event func(name string)
+	// Compaction reports the inputs and the output of one finished compaction
+	// and the discard watermark which was used.
+	Compaction func(level int, inputs [][]types.Entry, output []types.Entry, low uint64)
+}
+
+var handler atomic.Pointer[Handler]
+
+func Set(h *Handler) { handler.Store(h) }
+
+func FS(op, path string) {
+	if h := handler.Load(); h != nil && h.FS != nil {
+		h.FS(op, path)
+	}
+}
+
+func FSDone(op, path string) {
+	if h := handler.Load(); h != nil && h.FSDone != nil {
+		h.FSDone(op, path)
+	}
+}
+
+func Point(name string) {
+	if h := handler.Load(); h != nil && h.Point != nil {
+		h.Point(name)
+	}
+}
+
+func Event(name string) {
+	if h := handler.Load(); h != nil && h.Event != nil {
+		h.Event(name)
+	}
+}
+
+func EventN(name string, n int) {
+	if h := handler.Load(); h != nil && h.Event != nil {
+		h.Event(name + strconv.Itoa(n))
+	}
+}
+
+// CloneLists copies the slice headers, kway.Merge consumes the lists it is given.
+func CloneLists(lists [][]types.Entry) [][]types.Entry {
+	return slices.Clone(lists)
+}
+
+// discard watermark last used by each level manager (compactions of one manager are serialised by its lock)
+var lastLow sync.Map
+
+// NoteLow records the discard watermark a compaction of owner is using.
+func NoteLow(owner any, low uint64) {
+	lastLow.Store(owner, low)
+}
+
+func Compaction(owner any, level int, inputs [][]types.Entry, output []types.Entry) {
+	var low uint64
+	if v, ok := lastLow.LoadAndDelete(owner); ok {
+		low = v.(uint64)
+	}
+	if h := handler.Load(); h != nil && h.Compaction != nil {
+		h.Compaction(level, inputs, output, low)
+	}
+}
